@@ -167,3 +167,10 @@ def run(P: Program, R: Report, tier: str) -> None:
     from .neighbours import nearest_neighbour
 
     nearest_neighbour(P, R, "R04.3")
+    # R04.4 the per-track lookup the neighbour query reads loses no member, and "fresh" track ids are fresh
+    from .c06 import families, monotone_maxima, no_wholesale_replace
+
+    ta = P.class_named("TrackAnnotator")
+    fams_ = [f_ for f_ in families(P, ta) if "tracklet" in f_["key"] or "track" in f_["key"]]
+    monotone_maxima(P, R, ta, families(P, ta), "R04.4", only_key="track", floor=1)
+    no_wholesale_replace(P, R, ta, fams_, rule="R04.4")
